@@ -41,39 +41,6 @@ structure WClass where
   isOnUpdate : Bool := false
 deriving Repr, Inhabited
 
-structure Universe where
-  classes : List WClass
-  /-- `cls.__events__` (none: the class is not an event handler) -/
-  mapping : Ty → Option Mapping
-  objTy : Obj → Option Ty
-  /-- scripted failure of the k-th invocation of a method of an object -/
-  raises : Obj → String → Nat → Option String
-  /-- scripted reaction of the k-th invocation of a method of an object: the callback itself calls
-  `world.delete_entity(e)` (deferred deletion: the entity is marked, world.py:301-302) before it
-  returns or raises.  Callbacks are otherwise passive. -/
-  reacts : Obj → String → Nat → Option Ent := fun _ _ _ => none
-
-/-- no callback calls back into the world -/
-class Universe.Passive (U : Universe) : Prop where
-  noReact : ∀ o m k, U.reacts o m k = none
-
-def Universe.cls (U : Universe) (t : Ty) : WClass := (U.classes[t]?).getD { bases := [] }
-
-/-- `T.__subclasses__()`: the classes naming `T` as a base, in creation order.  A base is created
-before its subclasses, hence only later indices can qualify. -/
-def subs (U : Universe) (t : Ty) : List Ty :=
-  (List.range U.classes.length).filter (fun k => decide (t < k) && (U.cls k).bases.contains t)
-
-/-- pop order of the `fringe` loops (world.py:190-196, 239-251, …): pop from the end, then
-`fringe += subtype.__subclasses__()` — a pre-order walk taking children from last to first.
-`h` bounds the depth; `visit` passes the number of classes above `t`, which is enough because
-subclasses have larger indices. -/
-def desc (U : Universe) : Nat → Ty → List Ty
-  | 0, t => [t]
-  | h + 1, t => t :: ((subs U t).reverse.flatMap (desc U h))
-
-def visit (U : Universe) (t : Ty) : List Ty := desc U (U.classes.length - t) t
-
 /-- postponed events -/
 inductive QEv where
   /-- `on_single_dispatch(event, handler, *args)`; `ent = none` for processors -/
@@ -92,6 +59,11 @@ inductive Entry where
   | ret (v : String)
   | out (line : String)
 deriving Repr, DecidableEq, Inhabited
+
+/-- the entity a lifecycle callback is told about -/
+def Entry.entity : Entry → Option Ent
+  | .life _ _ _ ent => ent
+  | _ => none
 
 structure St where
   ents : Dict Ent (Dict Ty Obj) := []
@@ -120,6 +92,61 @@ structure St where
   log : List Entry := []
 deriving Inhabited
 
+inductive Op where
+  | create (id? : Option Ent) (cs : List Obj)
+  | add (e : Ent) (c : Obj)
+  | remove (e : Ent) (t : Ty)
+  | delete (e : Ent) (immediate : Bool)
+  | process (dt : String)
+  | clear
+  | addProc (p : Obj) (prio? : Option Int)
+  | rmProc (t : Ty)
+  | enable (b : Bool)
+  | dispatch (ev : String) (args : String)
+deriving Repr, DecidableEq, Inhabited
+
+structure Universe where
+  classes : List WClass
+  /-- `cls.__events__` (none: the class is not an event handler) -/
+  mapping : Ty → Option Mapping
+  objTy : Obj → Option Ty
+  /-- scripted failure of the k-th invocation of a method of an object -/
+  raises : Obj → String → Nat → Option String
+  /-- scripted reaction of the k-th invocation of a method of an object: the callback itself calls
+  `world.delete_entity(e)` (deferred deletion: the entity is marked, world.py:301-302) before it
+  returns or raises.  Callbacks are otherwise passive. -/
+  reacts : Obj → String → Nat → Option Ent := fun _ _ _ => none
+  /-- what the other world calls made by the k-th invocation of a method of an object do (re-entrant
+  `add_component`, `remove_component`, `delete_entity`, `create_entity`, `remove_processor`, … issued by
+  the callback before it returns): a state transformer, tied to the scripted operations through `step`
+  itself by `Universe.tie` below.  The default does nothing. -/
+  runReact : St → Obj → String → Nat → Option Ent → St × Outcome := fun s _ _ _ _ => (s, .ok)
+
+/-- no callback makes re-entrant calls other than `delete_entity` (deferred) -/
+class Universe.NoReenter (U : Universe) : Prop where
+  noReenter : ∀ s o m k x, U.runReact s o m k x = (s, .ok)
+
+/-- no callback calls back into the world -/
+class Universe.Passive (U : Universe) : Prop extends U.NoReenter where
+  noReact : ∀ o m k, U.reacts o m k = none
+
+def Universe.cls (U : Universe) (t : Ty) : WClass := (U.classes[t]?).getD { bases := [] }
+
+/-- `T.__subclasses__()`: the classes naming `T` as a base, in creation order.  A base is created
+before its subclasses, hence only later indices can qualify. -/
+def subs (U : Universe) (t : Ty) : List Ty :=
+  (List.range U.classes.length).filter (fun k => decide (t < k) && (U.cls k).bases.contains t)
+
+/-- pop order of the `fringe` loops (world.py:190-196, 239-251, …): pop from the end, then
+`fringe += subtype.__subclasses__()` — a pre-order walk taking children from last to first.
+`h` bounds the depth; `visit` passes the number of classes above `t`, which is enough because
+subclasses have larger indices. -/
+def desc (U : Universe) : Nat → Ty → List Ty
+  | 0, t => [t]
+  | h + 1, t => t :: ((subs U t).reverse.flatMap (desc U h))
+
+def visit (U : Universe) (t : Ty) : List Ty := desc U (U.classes.length - t) t
+
 def onAdd := "on_add"
 def onRemove := "on_remove"
 def onSingle := "on_single_dispatch"
@@ -139,9 +166,12 @@ def callCb (U : Universe) (s : St) (o : Obj) (meth : String) (e : Entry) : St ×
   let s := match U.reacts o meth k with
     | some x => { s with dead := setAdd s.dead x }
     | none => s
-  match U.raises o meth k with
-  | some x => (s, .raised x)
-  | none => (s, .ok)
+  match U.runReact s o meth k e.entity with
+  | (s, .ok) =>
+    match U.raises o meth k with
+    | some x => (s, .raised x)
+    | none => (s, .ok)
+  | r => r        -- an exception of a nested call propagates out of the callback
 
 /-- insert into a set kept in ascending order (the model's canonical iteration order of the
 listener set: listeners are passive, so Python's set order is not observable) -/
@@ -470,19 +500,6 @@ def get (U : Universe) (s : St) (t : Ty) : List (Ent × Obj) :=
   (dedup (visit U t)).flatMap fun st =>
     (idx s st).filterMap fun e => (Dict.get? (row s e) st).map fun c => (e, c)
 
-inductive Op where
-  | create (id? : Option Ent) (cs : List Obj)
-  | add (e : Ent) (c : Obj)
-  | remove (e : Ent) (t : Ty)
-  | delete (e : Ent) (immediate : Bool)
-  | process (dt : String)
-  | clear
-  | addProc (p : Obj) (prio? : Option Int)
-  | rmProc (t : Ty)
-  | enable (b : Bool)
-  | dispatch (ev : String) (args : String)
-deriving Repr, DecidableEq, Inhabited
-
 /-- one top-level operation: new state, outcome and returned value (as a token) -/
 def step (U : Universe) (s : St) : Op → St × Outcome × String
   | .create id? cs => let r := createEntity U s id? cs; (r.1, r.2.1, toString r.2.2)
@@ -499,6 +516,33 @@ def step (U : Universe) (s : St) : Op → St × Outcome × String
     (r.1, r.2.1, match r.2.2 with | some c => toString c | none => "None")
   | .enable b => let r := setEnabled U s b; (r.1, r.2, "-")
   | .dispatch ev args => let r := dispatchPlain U s ev args; (r.1, r.2, "-")
+
+/-- In a scripted reaction the entity identifier 0 (never a real identifier in scenarios) stands for
+"the entity this callback was told about". -/
+def Op.forEntity (x : Option Ent) : Op → Op
+  | .add e c => .add (if e = 0 then x.getD 0 else e) c
+  | .remove e t => .remove (if e = 0 then x.getD 0 else e) t
+  | .delete e i => .delete (if e = 0 then x.getD 0 else e) i
+  | op => op
+
+/-- scripted operations one after the other, stopping at the first exception -/
+def runOps (U : Universe) (s : St) : List Op → St × Outcome
+  | [] => (s, .ok)
+  | op :: ops =>
+    match step U s op with
+    | (s', .ok, _) => runOps U s' ops
+    | (s', o, _) => (s', o)
+
+/-- The universe in which the calls a callback makes back into the world are carried out by `step`
+itself: `script o m k` is what the k-th invocation of method `m` of `o` does.  Every scripted reaction
+fires at most once (the invocation counter only grows), so nesting is bounded by the number of scripted
+reactions; `fuel` is that bound. -/
+def Universe.tie (U : Universe) (script : Obj → String → Nat → List Op) : Nat → Universe
+  | 0 => { U with runReact := fun s o m k _ =>
+      if (script o m k).isEmpty then (s, .ok) else (s, .raised "RecursionError") }
+  | fuel + 1 =>
+    let inner := U.tie script fuel
+    { U with runReact := fun s o m k x => runOps inner s ((script o m k).map (Op.forEntity x)) }
 
 def run (U : Universe) (s : St) (ops : List Op) : St := ops.foldl (fun s op => (step U s op).1) s
 
@@ -558,6 +602,7 @@ structure Parsed where
   objTy : Dict Obj Ty := []
   raises : Dict (Obj × String × Nat) String := []
   reacts : Dict (Obj × String × Nat) Ent := []
+  reactOps : Dict (Obj × String × Nat) (List Op) := []
   sweeps : List (List Ent) := []
   entUniverse : List Ent := []
   ops : List ScOp := []
@@ -617,6 +662,19 @@ def parseOp : List String → Option ScOp
   | "via" :: k :: rest => do pure (.via (← k.toNat?) (← parseVia rest))
   | _ => none
 
+/-- split a token list at every `sep` -/
+def splitToks (sep : String) : List String → List (List String)
+  | [] => [[]]
+  | t :: ts =>
+    match splitToks sep ts with
+    | [] => [[t]]
+    | g :: gs => if t = sep then [] :: g :: gs else (t :: g) :: gs
+
+def allSome {α : Type} : List (Option α) → Option (List α)
+  | [] => some []
+  | some a :: l => (allSome l).map (a :: ·)
+  | none :: _ => none
+
 def parseLine (p : Parsed) (line : String) : Parsed :=
   match tokens line with
   | ["class", cid, kind, b, n, k, pr] => parseClass p cid kind b n k pr
@@ -636,6 +694,13 @@ def parseLine (p : Parsed) (line : String) : Parsed :=
     match o.toNat?, k.toNat?, x.toNat? with
     | some o, some k, some x => { p with reacts := Dict.set p.reacts (o, m, k) x }
     | _, _, _ => { p with bad := true }
+  | "react" :: o :: m :: k :: "do" :: rest =>
+    let ops := (splitToks ";" rest).map fun toks => match parseOp toks with
+      | some (.op op) => some op
+      | _ => none
+    match o.toNat?, k.toNat?, allSome ops with
+    | some o, some k, some ops => { p with reactOps := Dict.set p.reactOps (o, m, k) ops }
+    | _, _, _ => { p with bad := true }
   | ["hint", "sweep", l] =>
     match natList? l with
     | some es => { p with sweeps := p.sweeps ++ [es] }
@@ -651,12 +716,15 @@ def parseLine (p : Parsed) (line : String) : Parsed :=
   | [] => p
   | _ => { p with bad := true }
 
-def Parsed.universe (p : Parsed) : Universe :=
+def Parsed.universe0 (p : Parsed) : Universe :=
   { classes := p.classes
     mapping := fun t => (p.maps[t]?).join
     objTy := fun o => Dict.get? p.objTy o
     raises := fun o m k => Dict.get? p.raises (o, m, k)
     reacts := fun o m k => Dict.get? p.reacts (o, m, k) }
+
+def Parsed.universe (p : Parsed) : Universe :=
+  p.universe0.tie (fun o m k => (Dict.get? p.reactOps (o, m, k)).getD []) (p.reactOps.length + 1)
 
 def showEntry : Entry → List String
   | .life _ o m (some e) => [s!"cb {o} {m} e{e}"]
